@@ -34,7 +34,7 @@ BOUNDS = {'quick': {'widths_default_layout': [0, 2, 8], 'mutation_bases': 'D=0 k
 
 MENU = [b'=', b')', b'(', b'end', b'|', b'?', b',', b'1', b'x', b'then', b'do', b'..', b'"s"', b'{', b'}', b'local',
         b'return', b'::', b'.', b'not']
-NEWER = [b'a |= 1\nb = 2\n', b'x=1\na |= 1\ny=2\n', b'?x,y\n', b'local x <const> = 1\ny = 2\n', b'a ^^= 2\nb=1\n',
+NEWER = [b'x=1 end', b'x=1 )', b'x=1\ny=2 }', b'f() until', b'x=1 ?', b'a |= 1\nb = 2\n', b'x=1\na |= 1\ny=2\n', b'?x,y\n', b'local x <const> = 1\ny = 2\n', b'a ^^= 2\nb=1\n',
          b'x = 1 y = = 2\n', b'a = 1\n#include foo.lua\nb = 2\n', b'while (a) b=1\nc=2\n', b'a \\= 2\nc = 3\n',
          b'x=1 )\ny=2\n', b'f(\n', b'a.b.c\nd=1\n']
 
@@ -244,11 +244,15 @@ def mutants(prog):
         ts = toks[:i] + toks[i + 1:]
         nl = {g - 1 if g > i else g for g in prog.must_nl}
         yield text(ts, nl), ('delete', i)
+        yield text(ts, nl).rstrip(b'\n'), ('delete-nofinalnl', i)
     for i in range(n + 1):
         for m in MENU:
             ts = toks[:i] + [m] + toks[i:]
             nl = {g + 1 if g > i else g for g in prog.must_nl}
             yield text(ts, nl), ('insert', i)
+            if i >= n - 1:
+                # an unparsed tail of one token at the very end of the input, no newline after it
+                yield text(ts, nl).rstrip(b'\n'), ('insert-nofinalnl', i)
 
 
 # ---------------------------------------------------------------- CLI batch
